@@ -145,7 +145,7 @@ fn gen_elem<E: FieldElement>(ch: &mut Chooser) -> E {
 }
 
 fn primitives(ch: &mut Chooser, ctx: &mut Ctx) {
-    match ch.index("prim.type", 29) {
+    match ch.index("prim.type", 31) {
         0 => {
             let v = (ch.pick("v", 256) as u8);
             check(ch, ctx, "u8", &v)
@@ -264,6 +264,26 @@ fn primitives(ch: &mut Chooser, ctx: &mut Ctx) {
         26 => {
             let v = (ch.pick("a", 256) as u8, ch.u64("b") as u16, ch.u64("c") as u32, ch.u64("d"), ch.u64("e") as u128, "s".repeat(ch.index("f", 4)));
             check(ch, ctx, "(u8,u16,u32,u64,u128,String)", &v)
+        },
+        28 => {
+            // records of length-prefixed byte strings of very different lengths: a streaming
+            // reader serves them with slice reads only (no fixed-width read in between), draining
+            // and growing its buffer by turns
+            let k = 2 + ch.index("strs.count", 10);
+            let v: Vec<String> = (0..k)
+                .map(|_| {
+                    let n = [0usize, 1, 15, 16, 17, 100, 255, 256, 257, 300, 511, 600][ch.index("strs.len", 12)];
+                    rand_bytes(ch, n).iter().map(|b| (b' ' + b % 90) as char).collect()
+                })
+                .collect();
+            check(ch, ctx, "Vec<String>(long)", &v)
+        },
+        29 => {
+            let (a, b, c) = (gen_len(ch), gen_len(ch), gen_len(ch));
+            let s1: String = rand_bytes(ch, a).iter().map(|b| (b' ' + b % 90) as char).collect();
+            let s2: String = rand_bytes(ch, b).iter().map(|b| (b'0' + b % 40) as char).collect();
+            let s3: String = rand_bytes(ch, c).iter().map(|b| (b' ' + b % 90) as char).collect();
+            check(ch, ctx, "(String,String,String)", &(s1, s2, s3))
         },
         27 => {
             // the unit type occupies no bytes: n units are a length prefix and nothing else
